@@ -132,7 +132,7 @@ def judge_trusted(case, impl, model):
             msgs.append("trusted deserialize: " + m_tru)
     if mapper_free and in_scope and not offpath and not set_of_struct and reg and "ok" in reg:
         for key in ("serX", "serY"):
-            if key == "serY" and not model.get("yWellFormed"):
+            if key == "serY" and not (model.get("yWellFormed") and model.get("tsafe")):
                 continue    # the regular serializer model (Sem/Serde) only claims well-formed instances
             if key in model and key in impl:
                 d = S.res_same(cls, model[key], impl[key], doc=True)
@@ -177,6 +177,10 @@ def judge_trusted(case, impl, model):
                         detail = json.dumps(sx["ok"])[:150] + " vs " + json.dumps(sy["ok"])[:150]
             if what:
                 tag_list = list(model.get("declDefects", [])) + list(model.get("docIssues", []))
+                if not mapper_free and any(m in ("complex", "complex-list") for n, m in case.get("mappers", [])
+                                           if n != cls["name"]):
+                    # a nested class with an unsupported mapper can only be reached through an Optional
+                    tag_list.append("optional-unchecked:non-none-option")
                 if not mapper_free and model.get("cascade"):
                     tag_list.append("mapper:cascade")
                 if not mapper_free and _uses_unmapped_names(cls, case["doc"], case.get("mapperSpec") or {}):
